@@ -237,7 +237,7 @@ def plans_for(chk):
     base = dict(oq.BASE)
     sc = oq.scale()
     if chk.quick:
-        return [("InitPart1", dict(base, K=1, GridKeep=max(1, int(30 * sc)), NQ=int(1800 * sc)))]
+        return [("InitPart1", dict(base, K=1, GridKeepF=max(1, int(100 * sc)), GridKeep=max(1, int(30 * sc)), NQ=int(1800 * sc)))]
     return [("InitPart1", dict(base, K=2, NQ=int(12000 * sc))),
             ("InitPart1", dict(base, K=1, NQ=int(12000 * sc))),
             ("InitPart1", dict(base, K=0, NQ=int(5000 * sc), NP=2, NC=3, NG=3)),
@@ -270,7 +270,7 @@ def main(chk):
                                  "nhasx", "uni", "cont")] +
             ["jn:" + j for j in oq.JDOWN + oq.JUP] + ["sel:" + s for s in ("ent", "cols", "x", "pair", "entcol", "grp", "entgrp")])
     for k_ in need:
-        if not chk.violations and not cov.get(k_):
+        if oq.scale() >= 1 and not chk.violations and not cov.get(k_):
             chk.machinery("vacuous: no case with a non-empty result for " + k_)
     samples = [dict(ds=c["ds"], q=c["q"], rows=c["rows"]) for c in cases if len(c["rows"]) >= 2 and c["q"]["pf"] != "none"][:4]
     return chk.finish(
